@@ -444,6 +444,15 @@ class TSPkoptEnv(ImprovementEnvBase):
             == solution.data.sort(1)[0]
         ).all(), "Not visiting all nodes"
 
+        # a permutation may still consist of several sub-tours: follow the links from node 0
+        visited_time = torch.zeros_like(solution)
+        pre = torch.zeros(batch_size, dtype=torch.long, device=solution.device)
+        arange = torch.arange(batch_size, device=solution.device)
+        for i in range(graph_size):
+            visited_time[arange, solution[arange, pre]] = i + 1
+            pre = solution[arange, pre]
+        assert (visited_time > 0).all(), "Not a single tour"
+
     def get_mask(self, td):
         # return mask that is 1 if the corresponding action is feasible, 0 otherwise
         visited_time = td["visited_time"]
